@@ -169,6 +169,8 @@ class Interp:
                 self.assign(s.target, x, env)
                 self.block(s.body, env)
             self.block(s.orelse, env)
+        elif isinstance(s, ast.Assert):
+            pass        # assertions are not behaviour (stripped under -O)
         elif isinstance(s, ast.Return):
             raise _Return(self.ev(s.value, env) if s.value is not None else None)
         elif isinstance(s, ast.Raise):
